@@ -9,6 +9,7 @@ import NiftyVerif.Lemmas.CgReSim
 import NiftyVerif.Lemmas.CgReInv
 import NiftyVerif.Lemmas.CgReDescent
 import Mathlib.Tactic.NormNum
+import NiftyVerif.Lemmas.RVec
 
 namespace NiftyVerif.C15
 set_option linter.unusedSectionVars false
@@ -192,5 +193,31 @@ theorem maxiter0_disagree :
       cfgQ, ipQ, SSt.obs, resActive, normLt, energyOf, half, absK, max0]
 
 end witnesses
+
+/-! ### The instance the driver runs (`K = ℚ`, `V = RVec n`, `ip = RVec.dot`, `mat = RVec.matVec m`) is lawful -/
+
+section driver
+open NiftyVerif.RVec
+
+/-- the module operations used by the theorems reduce to the model's point-wise array operations -/
+example {n : Nat} (a b : RVec n) : (@HAdd.hAdd _ _ _ (@instHAdd _ AddSemigroup.toAdd) a b) = ⟨Vector.zipWith (· + ·) a.v b.v⟩ := rfl
+example {n : Nat} (c : ℚ) (a : RVec n) : (@HSMul.hSMul _ _ _ (@instHSMul _ _ Module.toDistribMulAction.toMulAction.toSMul) c a) = ⟨a.v.map (c * ·)⟩ := rfl
+
+/-- residual invariant and success criterion for the driver instance: hypotheses discharged, any dense matrix -/
+theorem driver_residual_invariant {n : Nat} (c : Cfg ℚ) (m : Mat n n) (j : RVec n) (x0 : Option (RVec n))
+    (res : Res ℚ (RVec n)) (h : cgEager c RVec.dot (RVec.matVec m) j x0 = .ok res) (hw : res.why ≠ .negCurvFirst) :
+    res.r = RVec.matVec m res.x - j ∧ res.gamma = RVec.dot res.r res.r :=
+  cg_residual_invariant c RVec.dot (RVec.matVec m) j x0 dot_symmBilin.toBilin (matVec_linear m) res h hw
+
+/-- program equivalence for the driver instance -/
+theorem driver_static_eq_eager {n : Nat} (c : Cfg ℚ) (m : Mat n n) (j : RVec n) (x0 : Option (RVec n))
+    (hG : 0 < maxiterEff c) (res : Res ℚ (RVec n)) (h : cgEager c RVec.dot (RVec.matVec m) j x0 = .ok res) :
+    (cgStatic c RVec.dot (RVec.matVec m) j x0).obs = res.obs := by
+  have hs := static_eq_eager c RVec.dot (RVec.matVec m) j x0 (Or.inl hG)
+  have h' : cgEager c RVec.dot (RVec.matVec m) j x0 = .ok res := h
+  rw [h'] at hs
+  exact hs
+
+end driver
 
 end NiftyVerif.C15
